@@ -660,3 +660,89 @@ def gen_bkg_consts():
            f'def coverageGetsFill : Bool := {b(fill_ok)}\n\n'
            'end PhotVerif.Gen.BkgConsts\n')
     return 'BkgConsts.lean', src, out
+
+
+def _func(tree, name):
+    return next((n for n in ast.walk(tree) if isinstance(n, ast.FunctionDef) and n.name == name), None)
+
+
+def _floaty(rhs):
+    t = ast.unparse(rhs).replace(' ', '')
+    return any(m in t for m in ('astype(float', 'astype(np.float', 'dtype=float', 'dtype=np.float'))
+
+
+def gen_float_guards():
+    """float conversion before in-place arithmetic, and the skeleton of process_quantities (C15)"""
+    files = ['photutils/utils/errors.py', 'photutils/utils/_convolution.py', 'photutils/background/background_2d.py',
+             'photutils/segmentation/catalog.py', 'photutils/aperture/stats.py', 'photutils/centroids/core.py',
+             'photutils/utils/_quantity_helpers.py']
+    srcs = {f: open(os.path.join(REPO, f)).read() for f in files}
+    trees = {f: ast.parse(s) for f, s in srcs.items()}
+    # calc_total_error: the array divided in place is defined by a float conversion
+    cte = _func(trees[files[0]], 'calc_total_error')
+    if cte is None:
+        raise Unsupported('calc_total_error not found')
+    inplace = [n for n in ast.walk(cte) if isinstance(n, ast.AugAssign) and isinstance(n.op, ast.Div)]
+    if len(inplace) != 1:
+        raise Unsupported(f'calc_total_error: expected one in-place division, found {len(inplace)}')
+    var = inplace[0].target
+    while isinstance(var, ast.Subscript):
+        var = var.value
+    vname = ast.unparse(var)
+    defs = [n for n in ast.walk(cte) if isinstance(n, ast.Assign) and ast.unparse(n.targets[0]) == vname and n.lineno < inplace[0].lineno]
+    sv_float = bool(defs) and _floaty(defs[-1].value)
+    # _filter_data: integer -> float
+    fd = _func(trees[files[1]], '_filter_data')
+    fd_ok = fd is not None and any(isinstance(n, ast.If) and 'np.issubdtype(data.dtype,np.integer)' in ast.unparse(n.test).replace(' ', '')
+                                   and any(isinstance(b, ast.Assign) and _floaty(b.value) for b in n.body) for n in ast.walk(fd))
+    # Background2D._calculate_stats: non-float -> float32
+    cs = _cls_method(trees[files[2]], 'Background2D', '_calculate_stats')
+    b2d_ok = cs is not None and any(isinstance(n, ast.If) and "dtype.kind!='f'" in ast.unparse(n.test).replace(' ', '')
+                                    and any(isinstance(b, ast.Assign) and _floaty(b.value) for b in n.body) for n in ast.walk(cs))
+    # SourceCatalog: data cut-outs are float copies
+    cat_ok = all(any(isinstance(c, ast.Call) and getattr(c.func, 'attr', '') == '_prepare_cutouts'
+                     and any(k.arg == 'dtype' and ast.unparse(k.value) == 'float' for k in c.keywords)
+                     for c in ast.walk(_cls_method(trees[files[3]], 'SourceCatalog', nm) or ast.Pass()))
+                 for nm in ('data', 'data_ma', 'convdata', 'convdata_ma'))
+    pc = _cls_method(trees[files[3]], 'SourceCatalog', '_prepare_cutouts')
+    cat_ok = cat_ok and pc is not None and 'astype(dtype,copy=True)' in ast.unparse(pc).replace(' ', '')
+    # ApertureStats cut-outs
+    ap_ok = any(isinstance(n, ast.Assign) and ast.unparse(n.targets[0]) == 'cutout' and 'astype(float,copy=True)' in ast.unparse(n.value).replace(' ', '')
+                for n in ast.walk(trees[files[4]]))
+    # centroid_quadratic works on a float copy
+    cq = _func(trees[files[5]], 'centroid_quadratic')
+    cq_ok = cq is not None and any(isinstance(n, ast.Assign) and ast.unparse(n.targets[0]) == 'data' and _floaty(n.value) and '.copy()' in ast.unparse(n.value)
+                                   for n in ast.walk(cq))
+    # process_quantities skeleton
+    pq = _func(trees[files[6]], 'process_quantities')
+    if pq is None:
+        raise Unsupported('process_quantities not found')
+    t = ast.unparse(pq).replace(' ', '')
+    skips_none = "getattr(arr,'unit',None)" in t and 'ifarrisnotNone' in t
+    rejects = 'iflen(unit)>1:' in t and 'raiseValueError' in t
+    strips = 'ifunitisnotNone:' in t and '[val.valueifvalisnotNoneelsevalforvalinvalues]' in t
+    b = lambda v: 'true' if v else 'false'
+    src = ''.join(srcs[f] for f in files)
+    out = ('/- GENERATED by tools/extract_tables.py (float conversion before in-place arithmetic; process_quantities skeleton) '
+           f'(sha256/16 {sha(src)}). DO NOT EDIT. -/\n'
+           'import PhotVerif.Model.Prelude\nnamespace PhotVerif.Gen.FloatGuards\n\n'
+           f'/-- calc_total_error: `{vname}` (divided in place by the gain) is defined by a float conversion of the data -/\n'
+           f'def totalErrorSourceVarianceIsFloat : Bool := {b(sv_float)}\n'
+           f'/-- _filter_data: integer data are converted with astype(float) before convolution -/\n'
+           f'def filterDataIntToFloat : Bool := {b(fd_ok)}\n'
+           f'/-- Background2D._calculate_stats: non-float data are converted to float32 before NaNs are inserted -/\n'
+           f'def background2dNonFloatToFloat32 : Bool := {b(b2d_ok)}\n'
+           f'/-- SourceCatalog data / convdata cut-outs are float copies -/\n'
+           f'def catalogCutoutsFloat : Bool := {b(cat_ok)}\n'
+           f'/-- ApertureStats data cut-outs are float copies -/\n'
+           f'def apertureStatsCutoutFloat : Bool := {b(ap_ok)}\n'
+           f'/-- centroid_quadratic works on a float copy of its input -/\n'
+           f'def centroidSourcesFloat : Bool := {b(cq_ok)}\n'
+           f'/-- process_quantities: inputs that are None are ignored; unit = getattr(arr, "unit", None) -/\n'
+           f'def processQuantitiesSkipsNone : Bool := {b(skips_none)}\n'
+           f'/-- more than one distinct unit (None counts as a unit) raises ValueError -/\n'
+           f'def processQuantitiesRejectsMixed : Bool := {b(rejects)}\n'
+           f'/-- units are removed with `.value` only -/\n'
+           f'def processQuantitiesStripsValue : Bool := {b(strips)}\n\n'
+           'end PhotVerif.Gen.FloatGuards\n')
+    return 'FloatGuards.lean', src, out
